@@ -242,10 +242,12 @@ fn check_effective(bytes: &[u8], stats: &mut Stats) -> Verdict {
         let (opp_t, opp_i) = (time_value(&mut s), inc_value(&mut s, 1000));
         let (opp_t2, opp_i2) = (time_value(&mut s), inc_value(&mut s, 50_000));
         let order = PERMS[s.below(24)];
+        // one command in ten ends with the standard 'movestogo n' a GUI sends with the clocks
+        let tail = if s.chance(10) { format!(" movestogo {}", 1 + s.below(60)) } else { String::new() };
         let mk = |ot: u64, oi: u64| {
             let (wt, bt, wi, bi) = if white { (own_t, ot, own_i, oi) } else { (ot, own_t, oi, own_i) };
             let vals = [("wtime", wt), ("btime", bt), ("winc", wi), ("binc", bi)];
-            format!("go depth 1{}", &cmd_for(&order, &vals)[2..])
+            format!("go depth 1{}{}", &cmd_for(&order, &vals)[2..], tail)
         };
         steps.push(Step { position, white, go: mk(opp_t, opp_i), go_twin: mk(opp_t2, opp_i2), own_t });
     }
